@@ -10,6 +10,7 @@ theorem inv4_wstep (st st' : St) (w : Wk) (pc : WPc) (e : Env) (h : Inv1 st) (h4
   | idle => cases e <;> crunch
   | sTake s => crunch
   | sDis s c => simp [hpc, wHolds] at hlw hww; crunch
+  | fOr s t => crunch
   | fTake s t => crunch
   | xio c => crunch
   | xtake s => crunch
